@@ -286,6 +286,11 @@ def evaluate(run, hexdec):
                             {'decoded_head': got, 'hex_head': (after['hex'] or b'')[:80].decode('latin-1')},
                             {'decoded_head': None if want is None else want[:6]}, {'kind': 'wrong-output', 'file': 'hex', 'cause': cause}))
     else:
+        off_legal = (not hexreq) or (parse_offset(o['hex']) is not None and 0 <= parse_offset(o['hex']) < 2 ** 32)
+        if exp[0] != 'FAIL' and cause == 'other' and off_legal and str(getattr(case, 'name', '')).startswith('ok-'):
+            # a plain invocation: existing input, assembles, the hex offset (if any) is a legal 32-bit address with room for the image
+            bad.append(('exit status {} although the program assembles and every option is legal (hex offset {!r})'.format(rc, o['hex']),
+                        {'exit': rc, 'stderr': run['stderr'][-200:]}, 'exit 0 and the three files', {'kind': 'refused-valid-run', 'cause': cause}))
         for k in ('output', 'labels', 'hex'):
             if before[k] is not None and after[k] != before[k]:
                 bad.append(('exit status {} but the existing {} file was {}'.format(
